@@ -162,7 +162,7 @@ class Check(DiffCheck):
                    'stale bytes of the receive buffer beyond the received bytes = one explicit fill value per case',
                    'std::sort modelled as libstdc++ insertion sort (exact for <= 16 headers; > 16 only with distinct names)',
                    'sscanf (Content-Range) modelled by a hand-written scanner for the two formats used',
-                   'request cases use fill=0 while finding C13-F1 (strlen on the receive buffer) is open']
+                   'model follows /repo after fixes F26 (fa57e16), F27 (header line without colon), F28 (tolower_fast8)']
     trusted_base = ['scripted MockSock in harness/C13/harness.cpp', 'python reference parser/decoder in checks/C13.py']
 
     # ------------------------------------------------------------------ build
@@ -392,7 +392,6 @@ class Check(DiffCheck):
         return kind, verb, head, body, tail
 
     def mcase(self, kind, cap, fill, verb, err, msg, frag, reads):
-        if kind == 'Q': fill = 0             # finding C13-F1: strlen(m_buf) in parse_request_line needs a NUL behind the received bytes
         return 'M %s %d %d %d %d %s %s %s' % (kind, cap, fill, verb, err, hx(msg), frag, reads)
 
     def term_cuts(self, head):
